@@ -31,6 +31,7 @@ Do(o) == /\ Enabled(P, st, o)
 ASet(c, k, i) == Do(Op("Set", c, k, "", i))
 ANestedSet(c, k, f, x) == Do(Op("NestedSet", c, k, f, x))
 AAppend(c, k, x) == Do(Op("Append", c, k, "", x))
+AWriteBack(c, k) == Do(Op("WriteBack", c, k, "", 0))
 AGet(c, k) == Do(Op("Get", c, k, "", 0))
 ACachedGet(c, k) == Do(Op("CachedGet", c, k, "", 0))
 ADel(c, k) == Do(Op("Del", c, k, "", 0))
@@ -46,6 +47,7 @@ MCNext ==
     \/ \E c \in CS, k \in Keys, i \in 1..3 : ASet(c, k, i)
     \/ \E c \in CS, k \in Keys, f \in Fields, x \in Scalars : ANestedSet(c, k, f, x)
     \/ \E c \in CS, k \in Keys, x \in Scalars : AAppend(c, k, x)
+    \/ \E c \in CS, k \in Keys : AWriteBack(c, k)
     \/ \E c \in CS, k \in Keys : AGet(c, k)
     \/ \E c \in CS, k \in Keys : ACachedGet(c, k)
     \/ \E c \in CS, k \in Keys : ADel(c, k)
